@@ -110,6 +110,14 @@ pub fn small_graph_borrow<'a>(counter: &'a AtomicUsize) -> FnGraph<FBorrow<'a>> 
     b.build()
 }
 
+/// `call` for every function type of the grammar (FBorrow is not `Callable`).
+pub trait Callable2 { fn call2(&self) -> usize; }
+impl Callable2 for FPlain { fn call2(&self) -> usize { Callable::call(self) } }
+impl Callable2 for FBox { fn call2(&self) -> usize { Callable::call(self) } }
+impl Callable2 for FArc { fn call2(&self) -> usize { Callable::call(self) } }
+impl Callable2 for FPtr { fn call2(&self) -> usize { Callable::call(self) } }
+impl<'a> Callable2 for FBorrow<'a> { fn call2(&self) -> usize { self.call() } }
+
 /// An error type that is Send but NOT Sync (the property only asks for Send user futures).
 #[derive(Debug)]
 pub struct ErrNS(pub std::cell::Cell<u8>);
@@ -186,7 +194,7 @@ CONC_APIS = [
     ("try_for_each_concurrent_control_mut_with", True, "control", True),
 ]
 STREAM_APIS = [("stream", False), ("stream_with", True)]
-CONC_USES = ["assert_send", "scoped_thread", "spawn_static"]
+CONC_USES = ["assert_send", "scoped_thread", "spawn_static", "nested_send"]
 STREAM_USES = ["assert_send", "fnref_to_thread", "scoped_thread"]
 
 
@@ -201,6 +209,10 @@ def user_future(kind, fut, err="String"):
     if fut == "async_borrow":
         # the usual way to write it: the user future borrows the function (non-mut APIs only)
         return "async move { let _ = f.call(); futures::future::ready(()).await; %s }" % val
+    if fut == "map_ref":
+        # a combinator future whose closure takes an argument that contains a lifetime
+        # (non-mut APIs only: the reference to the function outlives the closure call)
+        return "futures::future::ready(f).map(|g: &_| { let _ = Callable2::call2(g); %s })" % val
     if fut == "boxed":
         return "{ let v = f.call(); async move { let _ = v; futures::future::ready(()).await; %s }.boxed() }" % val
     return "{ let _ = f.call(); futures::future::ready(%s) }" % val
@@ -222,6 +234,10 @@ def gen_conc(api, mutable, kind, with_opts, ftype, fut, use, err="String"):
         body = ("    let fut = %s;\n    // the run is created here and awaited on another thread\n"
                 "    std::thread::scope(|s| { s.spawn(move || { let _ = block_on(fut); }); });") % conc_call_e(api, with_opts, kind, fut)
         run = run_fn(ftype, mutable)
+    elif use == "nested_send":
+        # the run is awaited inside an enclosing async block whose future must be Send
+        # (the body of a task; no 'static needed here)
+        body = ("    let fut = async move { let _ = %s.await; };\n    assert_send(&fut);\n    drop(fut);") % conc_call_e(api, with_opts, kind, fut)
     else:  # spawn_static: what tokio::spawn demands
         if mutable:
             inner = "let mut g = g; let _ = %s.await;" % conc_call_e(api, with_opts, kind, fut, g="g")
@@ -283,8 +299,8 @@ def grammar(feature_set):
         src, r = gen_stream(api, w, ft, use)
         progs.append(({"api": api, "ftype": ft, "fut": "-", "use": use}, src, r))
     if feature_set == "default":
-        for (api, mutable, kind, w), ft, fut, use in itertools.product(CONC_APIS, FTYPES, FUTS + ["async_borrow"], CONC_USES):
-            if fut == "async_borrow" and mutable:
+        for (api, mutable, kind, w), ft, fut, use in itertools.product(CONC_APIS, FTYPES, FUTS + ["async_borrow", "map_ref"], CONC_USES):
+            if fut in ("async_borrow", "map_ref") and mutable:
                 continue  # `FnMut(&mut F) -> Fut`: the future cannot borrow the function
             if ft == "FBorrow" and use == "spawn_static":
                 continue  # a task spawned on a runtime must be 'static: not a program of the domain
@@ -417,6 +433,10 @@ def main():
                     bor = [x for x in lst if x[0]["ftype"] == "FBorrow"]
                     if bor:
                         chosen.append(bor[(SEED * 5 + k * 3) % len(bor)])
+                    # and one that awaits the run inside a Send async block with a combinator future
+                    nest = [x for x in lst if x[0].get("use") == "nested_send" and x[0].get("fut") == "map_ref"]
+                    if nest:
+                        chosen.append(nest[(SEED * 3 + k) % len(nest)])
             progs = chosen
         modules = []
         runnable = []
